@@ -124,7 +124,7 @@ def main(argv):
     hxf, hxc = hx_bin("hx_filters"), hx_bin("hx_cleaning")
     rng = c.rng
     thorough = c.tier == "thorough"
-    reps = 60 if not thorough else 600
+    reps = 150 if not thorough else 600
     tmp = tempfile.mkdtemp(prefix="c18-", dir=os.environ.get("VERIF_BUILD", "/var/tmp"))
     R = Runner(c, tmp)
     model_lines, model_expect = [], []      # driver protocol lines and (description, impl result) to compare
